@@ -174,6 +174,28 @@ def audit(prop, thorough=False, extra_modules=()):
     return res
 
 
+class guard:
+    """`with guard(run, what):` — an exception escaping from the library under test is a finding for
+    the property being checked (recorded as a violation), not a failure of the tool."""
+
+    def __init__(self, run, what, detail=None):
+        self.run, self.what, self.detail = run, what, detail or {}
+
+    def __enter__(self):
+        return self
+
+    def __exit__(self, et, ev, tb):
+        if et is None or not issubclass(et, Exception):
+            return False
+        import traceback
+        text = "".join(traceback.format_exception(et, ev, tb))
+        if "ocean_science_utilities" in text:
+            self.run.violation(f"{self.what}: the library raised {et.__name__}",
+                               dict(self.detail, error=repr(ev), where=[ln.strip() for ln in text.splitlines() if "ocean_science_utilities" in ln][-3:]))
+            return True
+        return False
+
+
 class Driver:
     """Persistent model driver (compiled Lean, line protocol)."""
 
